@@ -46,6 +46,14 @@ def gen_world(rng):
                                sizes=["tiny", "tiny", "tiny", "k8"], p_have=0.45, max_stmts=3, min_missing=1,
                                lock=rng.choice(["absent", "ahead", "ahead"]),
                                many_files=rng.choice([40, 40, 130, 260]) if rng.random() < 0.015 else None)
+    if rng.random() < 0.02:
+        # the lock holds v and the first run inserts so many IDs that the new value starts with v's digits (3 -> 33):
+        # comparing old and new lock by anything but the whole number must not matter
+        v = rng.choice([1, 2, 3, 4, 7, 12, 30])
+        wm = world.gen_world_model(rng, use_cache=rng.choice([True, None]), nfiles=1, sizes=["tiny"], p_have=0.0, max_stmts=0,
+                                   min_missing=0, lock="absent", many=9 * v + rng.randrange(0, 10), links_p=0, hardlinks_p=0)
+        wm["lock"] = core.lock_text(v)
+        return wm, {"threads": rng.randrange(1, 5), "config_arg": rng.choice(["rel", "abs"])}
     if rng.random() < 0.08:
         # the top of the ID range: the lock is within reach of 2^32-1
         wm["lock"] = core.lock_text(U32 - rng.randrange(0, 4))
